@@ -10,7 +10,7 @@ package main
 //
 // Domain restrictions of the generator (each is a stated scope limit of the model, design.d/PIPE.md):
 //   no patches / images / replicas / replacements / vars / components / configurations / helm / plugins,
-//   generators with literal sources only, behaviour unspecified, no generatorOptions, no immutable;
+//   generators with literal sources only (all behaviours), no generatorOptions, no immutable;
 //   no `kind: List`, no empty documents, no anchors, no comments, no local-config annotation,
 //   no internal.config.kubernetes.io annotations in inputs, no ',' in names (PrevIds panic, C12 finding).
 //
@@ -61,6 +61,7 @@ type pipeLabel struct {
 type pipeGenSpec struct {
 	Name        string            `json:"name"`
 	Namespace   string            `json:"namespace"`
+	Behavior    string            `json:"behavior"`
 	Literals    []string          `json:"literals"`
 	Type        string            `json:"type"`
 	HasOpts     bool              `json:"hasOpts"`
@@ -104,6 +105,7 @@ type pipeCase struct {
 	Shape string            `json:"shape"`
 	Refs  int               `json:"refs"`
 	Twins bool              `json:"twins"`
+	Merges int              `json:"merges"`
 }
 
 // ---------------------------------------------------------------- catalogue
@@ -598,6 +600,55 @@ func pipeGenCase(rng *Rng, rules []krusty.VerifC03Rule) *pipeCase {
 		d := g.dirs[rng.Intn(len(g.dirs))]
 		g.newObj(k.Kind, k.AV, g.freshName(k.Kind), g.pickNs(k), d)
 	}
+	// generator behaviours: merge / replace into a ConfigMap / Secret of a descendant layer (generated or read
+	// from a file), sometimes into nothing (error), sometimes an explicit create
+	isUnder := func(x, anc *pipeDir) bool {
+		for y := x.parent; y != nil; y = y.parent {
+			if y == anc {
+				return true
+			}
+		}
+		return false
+	}
+	setBehavior := func(d *pipeDir, sp *pipeGenSpec, kind string) {
+		switch r := rng.Intn(100); {
+		case r < 6:
+			sp.Behavior = "create"
+		case r < 45:
+			sp.Behavior = rng.Pick([]string{"merge", "replace"})
+			var targets []*pipeObj
+			for _, o := range g.objs {
+				if o.Kind == kind && isUnder(o.Layer, d) {
+					targets = append(targets, o)
+				}
+			}
+			if len(targets) == 0 && rng.Chance(90) {
+				sp.Behavior = ""
+				return
+			}
+			if len(targets) > 0 && rng.Chance(88) {
+				tg := targets[rng.Intn(len(targets))]
+				for _, o := range g.objs {
+					if o.Gen && o.Layer == d && o.Kind == kind && o.Name == sp.Name {
+						o.Name, o.Ns = tg.Name, tg.Ns
+					}
+				}
+				sp.Name, sp.Namespace = tg.Name, tg.Ns
+				if rng.Chance(15) {
+					sp.Namespace = ""
+				}
+				pc.Merges++
+			}
+		}
+	}
+	for _, d := range g.dirs {
+		for i := range d.CmGens {
+			setBehavior(d, &d.CmGens[i], "ConfigMap")
+		}
+		for i := range d.SecGens {
+			setBehavior(d, &d.SecGens[i], "Secret")
+		}
+	}
 	// references
 	nedges := rng.Intn(5)
 	for i := 0; i < nedges; i++ {
@@ -729,6 +780,9 @@ func pipeGenYaml(s pipeGenSpec, secret bool) map[string]interface{} {
 	m := map[string]interface{}{"name": s.Name}
 	if s.Namespace != "" {
 		m["namespace"] = s.Namespace
+	}
+	if s.Behavior != "" {
+		m["behavior"] = s.Behavior
 	}
 	if len(s.Literals) > 0 {
 		l := []interface{}{}
@@ -900,7 +954,7 @@ func pipeCoqPairs(m map[string]string) string {
 }
 
 func pipeCoqGen(s pipeGenSpec) string {
-	return fmt.Sprintf("(mkPGen %s %s %s %s %s %s %s %s)", coqStr(s.Name), coqStr(s.Namespace), coqStrList(s.Literals),
+	return fmt.Sprintf("(mkPGen %s %s %s %s %s %s %s %s %s)", coqStr(s.Name), coqStr(s.Namespace), coqStr(s.Behavior), coqStrList(s.Literals),
 		coqStr(s.Type), coqBool(s.HasOpts), pipeCoqPairs(s.Labels), pipeCoqPairs(s.Annos), coqBool(s.DisableHash))
 }
 
@@ -1156,6 +1210,10 @@ func pipeOne(r *Run, pc *pipeCase, debug bool, corpus bool) {
 	r.Count("outcome", o.Cls)
 	r.Count("refs", fmt.Sprint(pc.Refs))
 	r.Count("twins", fmt.Sprint(pc.Twins))
+	r.Count("merge_replace_targets", fmt.Sprint(pc.Merges))
+	if pc.Merges > 0 {
+		r.Count("merge_replace_outcome", o.Cls)
+	}
 	if o.Cls == ClsErr {
 		r.Count("error", pipeErrKind(o.Msg))
 	}
@@ -1188,6 +1246,10 @@ func pipeErrKind(msg string) string {
 		return "generator-repeated-key"
 	case strings.Contains(msg, "conflicting fieldspecs"):
 		return "label-fieldspec-conflict"
+	case strings.Contains(msg, "cannot merge or replace"):
+		return "merge-target-missing"
+	case strings.Contains(msg, "behavior must be merge or replace"):
+		return "create-on-existing"
 	case strings.Contains(msg, "kustomization.yaml is empty"):
 		return "empty-kustomization"
 	case strings.Contains(msg, "merging from generator"):
